@@ -99,6 +99,14 @@ CLAIMED["C08"] = {
     "technique": "arithmetic-site census over the instance call graph with guard/range/invariant discharge + niche (bit-validity) census + cross-configuration structural body hashes",
 }
 
+CLAIMED["C01"] = {
+    "category": "other",
+    "text": "Every unsafe operation on the parse path of `multiboot2` (845 instances reachable from the public API of the minimal build through std adapters, vtables and closures; 51 sites) is enumerated; each must match a row of the written site table and the row's bounding premises are re-decided in the same run - imported premises of C14 (ref_from_bytes), C15 (cast), C03 (TagIter), C05 (DST extents), C18 (EFI iterator), C19 (ELF iterator), C20 (transmute) or local fact/layout checks (end-tag read, palette slice, RSDP slices, header prefix). An unsafe site without a row is a violation. Plus: bit-validity of all 29 viewed types (one known finding), Freeze / no mutable statics / &self-only API, acyclic call graph and loop table, zero-census (asm, FFI, abort, *_unchecked) with positive control. What is decided is the premise list of the written memory-safety argument, not the argument itself.",
+    "design_ref": "DESIGN.md §4 C01, App. A",
+    "note": TB + "; std bodies are traversed for reachability but their contracts are trusted; ElfSection::name/string_table follow a stored address (the statement's exception); LLVM-level behaviour and adequacy of the hand proofs are not decided",
+    "technique": "unsafe-site census over the instance call graph + per-site guard/extent obligations + imported premise sets + niche/Freeze/termination/zero censuses",
+}
+
 PENDING = "check not yet built in this session (machinery under construction; see DESIGN.md §9 build order) - not claimed until its premises run, pass on the repaired tree and fire on seeded breaks"
 NOT_APPLICABLE = {("C%02d" % i): PENDING for i in range(1, 21)}
 
